@@ -19,7 +19,7 @@ structure Case where
   idents : List (List Nat)
   sql : List Nat
   reserved : List Bool
-  folds : List (List Nat × List Nat)
+  folds : List (Bool × List Nat × List Nat)
   deriving FromJson
 
 /-- run model and specification side by side, collecting violated hypotheses and well-formedness -/
@@ -52,7 +52,7 @@ def handle (line : String) : String :=
     let unterminated := toks.any (fun t => t == Tok.unterminated)
     let ob := c.reserved.map (fun r =>
       Json.mkObj [("ok", toJson (orderByOk r)), ("h", toJson (decide (H_orderByReserved r)))])
-    let folds := c.folds.map (fun (a, b) => aliasVisible (ofCps a) (ofCps b))
+    let folds := c.folds.map (fun (bare, a, b) => orderKeyVisible bare (ofCps a) (ofCps b))
     Json.compress (Json.mkObj [
       ("case", toJson c.case), ("folds", toJson folds),
       ("columns", toJson (columns F d)), ("fields", toJson (fields F d)), ("pandas", toJson (pandas F d)),
